@@ -432,7 +432,13 @@ def node(w, hist, cfg, res):
             if w.flavor != 'F' or not cfg.get('undo', True):
                 continue
             from base64 import encodebytes
-            for ut in after:
+            # ... and of the newest transaction at or before T with an id
+            # taken before the pack: refused, or (a pack that removed
+            # nothing leaves it undoable) the same effect as without pack
+            cands = [(ut, False) for ut in after]
+            if j >= 2:
+                cands.append((tids[j - 1], True))
+            for ut, stale in cands:
                 if m.txn_by_tid(ut).recs and \
                         m.txn_by_tid(ut).recs[0].oid == p64(ROOT) and \
                         ut == tids[0]:
@@ -471,6 +477,8 @@ def node(w, hist, cfg, res):
                         uw.close()
                 n += 1
                 res.clause('C07.undo')
+                if stale and outs[1][0] == 'refused':
+                    continue
                 # objects that the pack was free to remove are not compared
                 if outs[0][0] == 'ok' and outs[1][0] == 'ok':
                     since, _ = pinned(m, graphs, oids, tids, j, gc)
@@ -491,8 +499,9 @@ def node(w, hist, cfg, res):
                                 cls.add('unreachable-at-T-written-later')
                             else:
                                 cls.add('plain')
-                    bad('undo', '%s:%s->%s%s' % (
-                        tag, outs[0][0], outs[1][0],
+                    bad('undo', '%s%s:%s->%s%s' % (
+                        tag, ':packed-transaction' if stale else '',
+                        outs[0][0], outs[1][0],
                         ':' + '+'.join(sorted(cls)) if cls else ''),
                         dict(pack=label, gc=gc, undo_tid=ut,
                              unpacked=repr(outs[0])[:300],
